@@ -78,7 +78,9 @@ func (g *Gen) frameObls(st *State, pos token.Pos) {
 			mode = "new"
 		}
 		for _, c := range g.expandMod(pat) {
-			allowed[c] = mode
+			if allowed[c] != "any" { // an unrestricted entry wins over a new-only wildcard
+				allowed[c] = mode
+			}
 		}
 	}
 	if st.heap["@epoch"] != g.entry.heap["@epoch"] {
@@ -141,11 +143,35 @@ func calleeName(cc *ssa.CallCommon) string {
 	case *ssa.Builtin:
 		return f.Name()
 	}
+	if u, ok := cc.Value.(*ssa.UnOp); ok && u.Op == token.MUL {
+		if fv, ok := u.X.(*ssa.FreeVar); ok {
+			return "dynamic:" + fv.Name()
+		}
+	}
 	return "dynamic:" + cc.Value.Name()
 }
 
 func (g *Gen) call(x ssa.Value, cc *ssa.CallCommon, st *State) {
 	if b, ok := cc.Value.(*ssa.Builtin); ok {
+		if g.c != nil && (b.Name() == "close" || b.Name() == "panic" || b.Name() == "delete") {
+			// call-site clauses on builtins with effects: at call close#k: requires ... (arguments arg0, arg1)
+			cname := b.Name()
+			g.callOrd[cname]++
+			k := g.callOrd[cname]
+			vars := map[string]Val{}
+			for i, a := range cc.Args {
+				vars[fmt.Sprintf("arg%d", i)] = g.val(a)
+			}
+			for _, cs := range g.c.Calls {
+				if cs.Callee == cname && (cs.K == k || cs.K == 0) {
+					cs.Matched = true
+					env := g.env(st, g.callScope(vars))
+					for j, r := range cs.Req {
+						g.assertExpr(st, env, "callsite", fmt.Sprintf("%s#%d", cname, k), r, cs.ReqSrc[j], cc.Pos())
+					}
+				}
+			}
+		}
 		g.builtin(x, b, cc, st)
 		return
 	}
@@ -320,14 +346,24 @@ func (g *Gen) callInner(x ssa.Value, cc *ssa.CallCommon, st *State) {
 	default:
 		oldAlloc := g.heapGet(st, "alloc")
 		g.havocComp(st, "alloc") // any non-pure callee may allocate
+		anyMod := map[string]bool{}
+		for _, pat := range ct.Modifies {
+			if !strings.HasPrefix(pat, "new ") {
+				for _, c := range g.expandMod(pat) {
+					anyMod[c] = true
+				}
+			}
+		}
+		done := map[string]bool{}
 		for _, pat := range ct.Modifies {
 			for _, c := range g.expandMod(pat) {
-				if c == "alloc" {
+				if c == "alloc" || done[c] {
 					continue
 				}
+				done[c] = true
 				old := g.heapGet(st, c)
 				g.havocComp(st, c)
-				if strings.HasPrefix(pat, "new ") && c != "alloc" {
+				if strings.HasPrefix(pat, "new ") && c != "alloc" && !anyMod[c] {
 					// only objects allocated by the callee differ
 					nw := g.heapGet(st, c)
 					g.assume(st, fmt.Sprintf("(forall ((fr Int)) (! (=> (<= fr %s) (= (select %s fr) (select %s fr))) :pattern ((select %s fr))))", oldAlloc, nw, old, nw))
@@ -910,6 +946,15 @@ func (g *Gen) goInstr(x *ssa.Go, st *State) {
 		for i, p := range f.Params {
 			if i < len(args) {
 				vars[p.Name()] = args[i]
+			}
+		}
+	}
+	if mc, ok := x.Call.Value.(*ssa.MakeClosure); ok {
+		callee := mc.Fn.(*ssa.Function)
+		cv := g.val(mc)
+		for i, fv := range callee.FreeVars {
+			if i < len(cv.Clo) {
+				vars[fv.Name()] = g.lazyCell(cv.Clo[i])
 			}
 		}
 	}
